@@ -289,10 +289,14 @@ def conditions(tier):
     n = 2 if quick else 3
     PP = 's: str, pos: int'
     base = ['0 <= pos <= len(s)']
-    for v in ('plain', 'brace', 'bracket', 'endenv', 'math', 'max1', 'max2'):
-        conds.append(Cond('nodes_%s_le%d' % (v, n), PP, ['len(s) <= %d' % n] + base, 'body_nodes(s, pos, %r)' % v, timeout=T,
-                          twin=False, smoke=[dict(s=x, pos=p) for x, p in (('a}b', 0), ('a]', 1), ('x$y', 0), ('{a}b', 0),
-                                                                            ('a' + BS + 'end{E}', 0), ('}', 1), ('', 0))]))
+    # quick: free strings for 4 of the 7 stop conditions, each split by the first character (disjoint, covering; the empty
+    # string belongs to the first part); the other three keep their skeleton conditions below
+    for v in (('plain', 'bracket', 'endenv', 'max1') if quick else ('plain', 'brace', 'bracket', 'endenv', 'math', 'max1', 'max2')):
+        for tag, ppre in ([('_lo', 'len(s) == 0 or ord(s[0]) < 92'), ('_hi', 'len(s) > 0 and ord(s[0]) >= 92')] if quick else [('', None)]):
+            conds.append(Cond('nodes_%s_le%d%s' % (v, n, tag), PP, ['len(s) <= %d' % n] + base + ([ppre] if ppre else []),
+                              'body_nodes(s, pos, %r)' % v, timeout=T, twin=False,
+                              smoke=[dict(s=x, pos=p) for x, p in (('a}b', 0), ('a]', 1), ('x$y', 0), ('{a}b', 0),
+                                                                   ('a' + BS + 'end{E}', 0), ('}', 1), ('', 0))] if tag != '_hi' else []))
     skn = [('endenv', '?' + BS + 'end{F}?' + BS + 'end{E}'), ('brace', 'x?}?'), ('bracket', '?]?'), ('endenv', '?' + BS + 'end{E}?'), ('math', '?$?'), ('max1', '{?}?'),
            ('max2', BS + 'a{?}?x'), ('plain', BS + 'b[?]{?}?')]
     for vi, (v, sk) in enumerate(skn):
@@ -332,7 +336,7 @@ def conditions(tier):
     for i, a in enumerate(specs):
         sk = BS + 'n' + ('??' if quick else '???')
         alpha = '*[{a ' if quick else '*[]{}a '
-        for which in (('macro',) if (quick and i % 3) else ('macro', 'env')):
+        for which in (('macro',) if (quick and i != 3) else ('macro', 'env')):
             conds.append(Cond('spell_%s_%d' % (which, i), 's: str', skel_pre(sk) + ['all(any(c == k for k in %r) for c in s[2:])' % alpha],
                           'body_spellings(s, %r, %r, %r)' % (a, which, quick), timeout=T, twin=False, cost=2,
                           smoke=[dict(s=BS + 'n' + t) for t in ('*[a', '{a}', '[a]', 'a a', '{}{', '* {', '**', '*{')],
@@ -349,6 +353,19 @@ def conditions(tier):
                 free = [k for k in range(L) if k not in pinned]
                 for k in free[1:]:
                     c.pre.append('s[%d] == chr(120)' % k)
+                if c.name in ('env_E', 'env_None'):
+                    # a free character in front of \\begin at the start position ends in an error message that formats the
+                    # symbolic token (realised value by value, > 500 paths): start at position 1 with the BODY hole free;
+                    # the leading character is covered by the env_*_lead conditions over a small set
+                    c.pre = [p for p in c.pre if p not in ('0 <= pos <= 1', 's[10] == chr(120)')] + ['pos == 1', 's[0] == chr(120)']
+                if c.name == 'env_other':
+                    c.pre = [p for p in c.pre if p != '0 <= pos <= 1'] + ['pos == 0']
+        for name in ('E', None):
+            sk = 'x' + BS + 'begin{E}x' + BS + 'end{E}x'
+            conds.append(Cond('env_%s_lead' % name, PP, ['len(s) == %d' % len(sk)] +
+                              ['s[%d] == chr(%d)' % (i, ord(ch)) for i, ch in enumerate(sk) if i != 0] +
+                              ['any(s[0] == chr(k) for k in (32, 10, 120, 123, 37))', 'pos == 0'], 'body_env(s, pos, %r)' % name, timeout=T,
+                              twin=False, descr='space, newline, x, { or %% in front of the environment, start position 0'))
     for i, (a, sk) in enumerate([('{*{', BS + 'n{a}?*{b}?'), ('{*', BS + 'n{a}?*?'), ('[*{', BS + 'n[a]?*{b}'), ('*[{', BS + 'n?*?[a]{b}'),
                                  ('{[', BS + 'n{a}?[b]?'), ('[{', BS + 'n?[a]?{b}'), ('{{', BS + 'n?a?b')]):
         conds.append(Cond('spellskel_%d' % i, 's: str', skel_pre(sk), "body_spellings(s, %r, 'macro')" % a, timeout=T, twin=False, cost=2,
@@ -363,11 +380,14 @@ META = dict(
                'macrospec._specclasses (args_parser handling: _legacy_pyltxenc2_CallableSpec_init_from_args_parser), '
                'macrospec._spechelpers.std_macro/std_environment, MacroStandardArgsParser',
                'the pylatexenc-3 parsers they are compared with'],
-    bounds=dict(quick='every Unicode string of length <= 2  and every start position, for 7 get_latex_nodes variants, '
-                      'expression, 2 brace types, optional argument, 4 get_token variants; pinned skeletons with free holes for '
-                      'each; environments on skeletons; 7 argument strings over {*,[,{} through 4 macro (and, for some, 4 environment) spellings on all 2-character '
+    bounds=dict(quick='every Unicode string of length <= 2  and every start position, for 4 of the 7 get_latex_nodes variants '
+                      '(stop on bracket, on \\end, read_max_nodes=1, none), '
+                      'expression, 2 brace types, optional argument, 4 get_token variants; pinned skeletons with one free hole and start '
+                      'position 0/1 for all 7 variants and the other entry points; get_latex_environment on skeletons with the body character free (start '
+                      'position 1) or the leading character in {space, newline, x, {, %} (start position 0): a free leading character ends '
+                      'in an error message that formats the symbolic token and does not finish; 7 argument strings over {*,[,{} through 4 macro (and, for some, 4 environment) spellings on all 2-character '
                       'continuations over {*,[,{,a,space} and 7 longer skeletons',
-                thorough='length <= 3; 5 brace types; argument strings up to length 4 on 3-character continuations'),
+                thorough='length <= 3 for all 7 get_latex_nodes variants; 5 brace types; argument strings up to length 4 on 3-character continuations'),
     stubs=['logging disabled', 'deprecation warnings silenced', 'step budget'],
     outside=['strict_braces=False', 'tolerant walkers', 'parsing_state arguments other than those listed'],
     assumptions=['documented difference kept out of the comparison: get_latex_expression sets nodeargd=None on call nodes'],
